@@ -4,7 +4,7 @@
    DataRow::~DataRow / DataTable::pvDeallocateFreeRaws / pvAllocateRaw / pvDestroyRaws on every run and whose extracted
    code is replayed against event traces of the real DataTable. *)
 From Coq Require Import List Arith Bool Permutation.
-From C19 Require Import Treiber TreiberInv TreiberThms TreiberExamples.
+From C19 Require Import Treiber TreiberInv TreiberThms TreiberRace TreiberLive TreiberExamples.
 Import ListNotations.
 
 (* The 16-clause invariant holds in every state reachable under ANY schedule. *)
@@ -131,6 +131,28 @@ Theorem C19_quiescent_every_disposed_row_reclaimed_exactly_once :
   forall ls s, run init ls = Some s -> quiescent s -> Permutation (disposed s) (reclaimed s).
 Proof. exact quiescent_all_reclaimed. Qed.
 Print Assumptions C19_quiescent_every_disposed_row_reclaimed_exactly_once.
+
+(* No row is ever lost: from EVERY reachable state (any number of destructors in flight, the owner anywhere in its
+   walk) there is a continuation -- each busy disposer finishes its push, the owner finishes its walk and drains once
+   more -- that reaches quiescence, where every disposed row has been reclaimed exactly once. *)
+Theorem C19_no_row_is_ever_lost :
+  forall s, reachable s ->
+  exists ls s', run s ls = Some s' /\ quiescent s' /\ Permutation (disposed s') (reclaimed s').
+Proof. exact quiescence_reachable. Qed.
+Print Assumptions C19_no_row_is_ever_lost.
+
+(* Race freedom of the protocol's plain memory accesses under the interleaving (sequentially consistent) semantics:
+   whenever the disposer's plain store of the link word (DLink), the owner's plain load of it (ORead) or the pool's
+   writes into the deallocated buffer (OFree) are enabled, no step of any other actor (another disposer, the owner,
+   a client writing items) that touches the same buffer is enabled in the same state. *)
+Theorem C19_protocol_accesses_race_free :
+  forall s l1 l2 r, reachable s ->
+  protocol_access l1 = true ->
+  step s l1 <> None -> step s l2 <> None ->
+  actor_of l1 <> actor_of l2 ->
+  touches s l1 = Some r -> touches s l2 = Some r -> False.
+Proof. exact protocol_accesses_race_free. Qed.
+Print Assumptions C19_protocol_accesses_race_free.
 
 (* The owner's walk is never blocked and shortens its private chain by one per iteration; disposer steps cannot
    touch that chain. *)
